@@ -51,6 +51,12 @@ def run(ctx) -> None:
     from . import c06
     from .common import concrete_devices
 
+    from . import c18
+
+    ctx.reuse("C04.pairing", c18.grouping)
+    ctx.reuse("C04.pairing", c18.sorting)
+    for kind in ("add", "remove"):
+        ctx.reuse("C04.frame", c02.nonneg, kind)
     for dev in concrete_devices(ctx):
         ctx.reuse("C04.pairing", c06.wiring, dev)
         ctx.reuse("C04.pairing", c06.iteration_space, dev)
